@@ -600,7 +600,9 @@ fn linearizable<F: Flavour>(case: &Case<F>, out: &RunOut) -> Result<Vec<(usize, 
             }
             return F::digest(&st) == out.final_digest;
         }
-        if *tried > 200_000 {
+        *tried += 1;
+        if *tried > 300_000 {
+            // search budget gone: undecided, which is not a violation (see the caller)
             return false;
         }
         // real time: a request may come next only if no other pending request returned before it was called
@@ -641,6 +643,9 @@ fn linearizable<F: Flavour>(case: &Case<F>, out: &RunOut) -> Result<Vec<(usize, 
     }
     if go(case, out, &per, &mut next, &mut order, &mut tried) {
         Ok(order)
+    } else if tried > 300_000 {
+        // undecided within the search budget: never reported as a violation
+        Ok(Vec::new())
     } else {
         Err(format!("no sequential order of the {} requests explains the responses and the final state", total))
     }
@@ -684,7 +689,11 @@ fn judge<F: Flavour>(case: &Case<F>, chooser: Chooser, focus: &str, keep_text: b
         return (ctx, out.schedule);
     }
     match linearizable(case, &out) {
-        Ok(_) => {}
+        Ok(order) => {
+            if order.is_empty() && !out.events.is_empty() {
+                ctx.bump("linearizability_search_budget_exhausted_undecided");
+            }
+        }
         Err(why) => {
             let hist = out.events.iter().map(|e| format!("t{}#{}[{}..{}] {:?} -> {}", e.thread, e.idx, e.call, e.ret, case.scripts[e.thread][e.idx], e.resp)).collect::<Vec<_>>().join(" | ");
             ctx.fail("C08", "not-linearizable", "threads", format!("{why}: {hist}"));
